@@ -88,6 +88,9 @@ CHECKS = {
  "C33": dict(cat="exploration", tech="JsonGen.tla enumerates the JSON values (generator + identity contract Export(Load(Save(Import(v)))) = v); each value is piped through the real CLI binary built from /repo and compared, including number kinds; outcomes validated by Trace_Wire Cli",
    text="728 JSON objects over all scalar tokens x key tokens x nesting shapes (quick: every second one).", ref="§5a",
    note="assumes: the value grammar of JsonGen.tla (depth <= 3, 13 number tokens, 7 string tokens, 4 key tokens) is representative; serde_json with default features parses the comparison side"),
+ "C36": dict(cat="exploration", tech="Doc.tla behaviours (TLC, exhaustive transition coverage + simulation) replayed through the C ABI by a C driver built with clang AddressSanitizer/UBSan/LeakSanitizer; every observation (heads, full save() bytes, all values read through items/byte spans/iterators) compared with the Rust API replay of the same behaviour",
+   text="Documents, maps, lists, counters, merges; three result-freeing disciplines. Functional agreement is equality with the Rust API, i.e. with the state Doc.tla predicts (the Rust replay of the same behaviours is compared with the specification in C02).", ref="§5a, §6 C36",
+   note="assumes: memory safety is the sanitizers' verdict on these programs, not a proof; the driver covers document/map/list/commit/merge/save/read calls - text, marks, sync and change-inspection calls of the C API are not exercised; offline build of the staticlib and of the cbindgen header as in the repository's CMake flow"),
 }
 
 NA_REASON = "check not built yet in this session (framework under construction; see DESIGN.md §10 build order)"
@@ -102,7 +105,7 @@ def main():
         pass
     m = {
       "version": 1,
-      "setup_cmd": "cd /verif/harness && CARGO_NET_OFFLINE=true cargo build --offline --bins && cd /repo/rust && CARGO_NET_OFFLINE=true cargo build --offline -p automerge-cli --target-dir /verif/harness/target-cli",
+      "setup_cmd": "cd /verif/harness && CARGO_NET_OFFLINE=true cargo build --offline --bins && cd /repo/rust && CARGO_NET_OFFLINE=true cargo build --offline -p automerge-cli --target-dir /verif/harness/target-cli && CBINDGEN_TARGET_DIR=/verif/harness/target-capi/include cargo build --offline -p automerge-c --target-dir /verif/harness/target-capi",
       "hooks": {
         "guard": "automerge_verif",
         "enable": "rustc --cfg automerge_verif, set through /verif/harness/.cargo/config.toml [build] rustflags",
